@@ -53,6 +53,8 @@ struct Options {
     bool latency = false;        // messages travel: delivery is a separate scheduled event (cross-source reordering)
     int max_latency = 50;        // DES: latency in virtual us drawn from [0,max_latency]
     int rdv_pct = 0;             // % of sends that are rendezvous (block until matched)
+    int lazy_isend_pct = 0;      // % of non-blocking raw sends whose buffer is read only when the message is transferred (legal: the
+                                 // buffer belongs to MPI until the request completes); exposes send buffers that die too early
     int stall_permille = 0;      // chance per yield that the rank is stalled
     int max_stall = 200;         // stall length in scheduling steps (or virtual us * 10 in DES)
     bool speeds = false;         // per-rank speed factors (DES)
@@ -72,7 +74,7 @@ struct Options {
 struct Stats {
     long steps = 0;
     long yields = 0;
-    long sends = 0, sends_rdv = 0, rdv_blocked = 0;
+    long sends = 0, sends_rdv = 0, rdv_blocked = 0, lazy_isends = 0;
     long deliveries = 0, delivered_out_of_global_order = 0, unexpected = 0;
     long matches = 0, self_sends = 0, wildcard_matches = 0, wildcard_competition = 0;
     long tests_ok = 0, tests_fail = 0, cancels_pending = 0, cancels_matched = 0;
@@ -109,6 +111,10 @@ struct Msg {
     uint64_t gseq;               // global send sequence number
     double arrive = 0;           // virtual arrival time (DES)
     std::shared_ptr<bool> matched; // set when matched with a receive (rendezvous senders / isend requests wait on it)
+    const char* lazy_src = nullptr; // non-blocking send whose buffer has not been read yet (read at delivery)
+    size_t lazy_len = 0;
+    std::shared_ptr<bool> read_done;
+    int sender_world = -1;
 };
 
 struct ReqState {
@@ -163,7 +169,7 @@ public:
     int ctx_size(int ctx) const;
     int ctx_rank(int ctx) const;                 // rank of the calling task within ctx (-1 if not a member)
     int ctx_world_rank(int ctx, int r) const;
-    void send(int ctx, int dst, int tag, const void* data, size_t nbytes, bool blocking, ReqPtr* out_req);
+    void send(int ctx, int dst, int tag, const void* data, size_t nbytes, bool blocking, ReqPtr* out_req, bool buffer_owned_by_caller = true);
     ReqPtr post_recv(int ctx, int src, int tag, char* buf, size_t cap, bool serialized,
                      std::function<void(const std::string&)> unpack);
     bool test(const ReqPtr& r, MsgStatus* st);   // yields; true once, then the request is inactive
